@@ -81,3 +81,25 @@ func thmDeleteRemovesExtensions(t *Trie, b, x []byte) {
 	//@ assert !h
 	_, _, _ = h, p, q
 }
+
+//@ theorem C15.newIsEmpty
+//@   props C15
+//@   requires forall y ref :: y != nil ==> !isnil(y.m)
+//@   requires forall y ref, k int :: has(y.m, k) ==> y.m[k] != nil
+//@   requires closed(heaphas(y0.m), heapval(y0.m), alloc)
+//@   requires len(x) > 0
+// New returns a live node without children: the heap stays well formed (so
+// the preconditions of Has/Add/Delete hold for the new trie), Has(x) is false
+// for every non-empty x and true for the empty sequence.
+func thmNewIsEmpty(y0 *Trie, x []byte) {
+	t := New()
+	//@ assert t != nil && t <= alloc
+	//@ assert forall y ref :: y != nil ==> !isnil(y.m)
+	//@ assert forall y ref, k int :: has(y.m, k) ==> y.m[k] != nil
+	//@ assert closed(heaphas(t.m), heapval(t.m), alloc)
+	h := t.Has(x)
+	e := t.Has(x[:0])
+	//@ assert mark(offset(x))
+	//@ assert !h && e
+	_, _ = h, e
+}
